@@ -220,8 +220,8 @@ public:
 
 			three_sum(p[0], p[1], p[2]);
 
-			hi = p[0];
-			lo = p[1];
+			// three_sum's first output is not always the rounded total: renormalise
+			hi = quick_two_sum(p[0], p[1], lo);
 		}
 		else {
 			hi = p[0];
@@ -263,8 +263,8 @@ public:
 			double q3 = r.hi / rhs.hi;
 
 			three_sum(q1, q2, q3);
-			hi = q1;
-			lo = q2;
+			// three_sum's first output is not always the rounded total: renormalise
+			hi = quick_two_sum(q1, q2, lo);
 		}
 		else {
 			hi = q1;
